@@ -437,6 +437,11 @@ namespace
         //    sampler in OrderedInfSampler (null deref in its constructor)
         if (n == "ordered_sampling")
             return true;
+        //  * RRT* pruned_measure=1 without informed sampling: the library logs "InformedMeasure requires InformedSampling and
+        //    TreePruning" (OMPL_ERROR) but keeps the setting; pruneTree() then dereferences the informed sampler that does not
+        //    exist. A combination the library itself reports as an error is outside the quantifier.
+        if (planner == "RRTstar" && n == "pruned_measure")
+            return true;
         return false;
     }
 
